@@ -65,7 +65,7 @@ var evasionPool = map[string][]cfgPattern{
 	},
 }
 var suffixPool = map[string][]cfgPattern{
-	"unix":    {{`(?:\s|<|>).*`, []string{" ", "<", "> foo", " a b", "\t"}}, {`[\s<>].*`, []string{" x", "<"}}, {``, []string{""}}},
+	"unix":    {{`(?:\s|<|>).*`, []string{" ", "<", "> foo", " a b", "\t"}}, {`[\s<>].*`, []string{" x", "<"}}, {``, []string{""}}, {`(?:\$IFS|\$\{IFS\}|\s).*`, []string{"$IFS", "${IFS}x", " y"}}},
 	"windows": {{`(?:[\s,;]|\.|/|<|>).*`, []string{",", ";x", " y", "./z", "<"}}, {`[\s,;].*`, []string{", a"}}, {``, []string{""}}},
 }
 var noSpacePool = map[string][]cfgPattern{
@@ -105,6 +105,9 @@ func genC04(t *rapid.T, tier string) (*World, any) {
 			word += `\@`
 		case 5:
 			word += `\~`
+		}
+		if chance(t, 5, "lone-escaped-marker") {
+			word = pick(t, []string{`\@`, `\~`}, "lonem") // the character itself, nothing else
 		}
 		if chance(t, 8, "verbatim") {
 			word = "'" + pick(t, []string{"ab+c", "x[0-9]y", "p(?:q|r)s", "kk|mm", "ap(?:t)?|yu", "'q[a-c]+'", "us+er@", "ro+t~", `ma+il\\@`, `ti+l\\~`, "a@|b~"}, "verb")
@@ -371,6 +374,21 @@ func evalC04(sc *Scenario, sim *Sim) ([]Violation, bool, string) {
 	}
 	r := sb.Run(Step{Argv: argv, Cwd: "crs", Plan: p.Plan})
 	operand(sb, &r)
+	if p.Via == "update" && r.Exit == 0 {
+		// what update stores is what generate prints under the same configuration, byte for byte
+		gargv := append([]string{}, argv...)
+		for i := range gargv {
+			if gargv[i] == "update" {
+				gargv[i] = "generate"
+			}
+		}
+		pl := p.Plan
+		if g := sb.Run(Step{Argv: gargv, Cwd: "crs", Plan: pl}); g.Exit == 0 && !bytes.Equal(g.Stdout, r.Stdout) {
+			return []Violation{{Prop: "C04", Oracle: "stored-is-generated", Sig: "C04/stored-is-generated/differs/" + p.ConfigMode,
+				Msg:    "the expression `update` stored in the rules file is not the one `generate` prints under the same configuration",
+				Detail: fmt.Sprintf("generate: %q\nstored:   %q\nprogram:\n%s", clip(g.Stdout), clip(r.Stdout), sc.World.Files["crs/regex-assembly/932100.ra"].Text)}}, true, ""
+		}
+	}
 	var viol []Violation
 	add := func(oracle, what, msg, detail string) {
 		viol = append(viol, Violation{Prop: "C04", Oracle: oracle, Sig: "C04/" + oracle + "/" + what + "/" + p.ConfigMode, Msg: msg,
